@@ -17,7 +17,38 @@ def obligations(tier):
             for sv in (R.TAPROOT, R.TAPSCRIPT):
                 for annex in (0, 1):
                     obs.append(dict(kind='schnorr', name='schnorr/sv%d/in%dof%d/out%d/annex%d' % (sv, nIn, nin, nout, annex), sv=sv, nin=nin, nout=nout, nIn=nIn, annex=annex))
+    for (nin, nout) in ((1, 1), (2, 1)):
+        for sv in (R.BASE, R.WITNESS_V0):
+            for sl in (0, 1, 9):
+                for kl in (0, 33, 65, 32): obs.append(dict(kind='checker', name='checker/sv%d/in0of%d/sig%d/key%d' % (sv, nin, sl, kl), sv=sv, nin=nin, nout=nout, nIn=0, sl=sl, kl=kl, annex=0))
+        for sv in (R.TAPROOT, R.TAPSCRIPT):
+            for sl in (0, 63, 64, 65, 66): obs.append(dict(kind='checker', name='checker/sv%d/in0of%d/sig%d/key32' % (sv, nin, sl), sv=sv, nin=nin, nout=nout, nIn=0, sl=sl, kl=32, annex=1 if sl == 65 else 0))
     return obs
+
+ECDSA = {}
+def ecdsa_uf(pub, digest, sig):
+    key = (len(pub), len(sig))
+    F = ECDSA.get(key)
+    if F is None: F = z3.Function('ecdsa_verify_%d_%d' % key, z3.BitVecSort(8 * len(pub)), z3.BitVecSort(256), z3.BitVecSort(max(8 * len(sig), 1)), z3.BoolSort()); ECDSA[key] = F
+    return F(stubs.cat([R.B(x) for x in pub], 8), stubs.cat([R.B(x) for x in digest], 8), stubs.cat([R.B(x) for x in sig], 8) if sig else z3.BitVecVal(0, 1))
+SCHNORR_V = z3.Function('schnorr_verify_64', z3.BitVecSort(256), z3.BitVecSort(256), z3.BitVecSort(512), z3.BoolSort())
+
+def install_checker_stubs(E):
+    def verify(E, st, fr, I, A):
+        this, hashp, sigv = A
+        # CPubKey layout: 65 bytes vch; size from the header byte
+        hdr = E.load(st, this, 1)
+        if is_sym(hdr): n = 65 if E.feasible(st, z3.UGE(hdr, 4)) else 33          # the path already fixed the key class (IsValid), the exact header byte stays symbolic
+        else: n = 33 if hdr in (2, 3) else (65 if hdr in (4, 6, 7) else 0)
+        pub = stubs.rd(E, st, this, n); dg = stubs.rd(E, st, hashp, 32)
+        b = E.load(st, sigv, 8); e = E.load(st, sigv + 8, 8); sig = stubs.rd(E, st, b, e - b) if e > b else []
+        return stubs.b2i(ecdsa_uf(pub, dg, sig), 1)
+    E.stubs['_ZNK7CPubKey6VerifyERK7uint256RKSt6vectorIhSaIhEE'] = verify
+    def verify_schnorr(E, st, fr, I, A):
+        this, msgp, sigp, siglen = A
+        if is_sym(siglen) or siglen != 64: raise Exception('schnorr sig length')
+        return stubs.b2i(SCHNORR_V(stubs.cat(stubs.rd(E, st, this, 32), 8), stubs.cat(stubs.rd(E, st, msgp, 32), 8), stubs.cat(stubs.rd(E, st, sigp, 64), 8)), 1)
+    E.stubs['_ZNK11XOnlyPubKey13VerifySchnorrERK7uint2564SpanIKhE'] = verify_schnorr
 
 def mk(ob, V=None):
     sym = V is None
@@ -129,6 +160,38 @@ def prep(ob, V=None):
             if ob['sv'] == R.BASE: return dict(digest=ref_legacy(ctx, T, code, nIn, ht))
             return dict(digest=ref_bip143(ctx, T, code, nIn, ht, amount))
         return 'w_sighash', [('in', r.b), ('out', 40)], io, ref, assume, dict(tx=T['tx'], ht=ht, code=code, amount=amount)
+    if ob['kind'] == 'checker':
+        spent = [(bs('sa%d_' % i, 8), bs('sp%d_' % i, 3)) for i in range(ob['nin'])]
+        ah = bs('ah', 32); leaf = bs('lf', 32); cs = bs('cs', 4); amount = bs('am', 8)
+        sig = bs('sg', ob['sl']); pub = bs('pk', ob['kl']); code = [0x51, 0xab, 0x52]
+        assume = []
+        if sym and ob['kl'] in (33, 65): assume.append(z3.ULE(pub[0], 7))          # header byte small: the key classes (2,3 | 4,6,7 | other) are explored by forking on it
+        if sym: assume.append(z3.Extract(7, 7, R.B(amount[7])) == 0)               # non-negative amount (a negative amount means 'missing' for segwit v0)
+        r = Req(); r.bytes(T['tx']).u32(len(spent))
+        for (v, pk) in spent: r.u64(z3.Concat(*[R.B(x) for x in reversed(v)]) if sym else hlib.le(v)); r.bytes(pk)
+        r.u32(nIn).u64(z3.Concat(*[R.B(x) for x in reversed(amount)]) if sym else hlib.le(amount)).u32(ob['sv']).bytes(sig).bytes(pub).bytes(code)
+        r.u32(ob['annex']).bytes(ah).bytes(leaf).u32(z3.Concat(*[R.B(x) for x in reversed(cs)]) if sym else hlib.le(cs))
+        def io(E, f, ret, outs):
+            if ret is None: return crash(f)
+            raw = outs[0](5); ok = raw[0]
+            return dict(result=ok, err=hlib.le(raw[1:5]) if (ob['sv'] in (R.TAPROOT, R.TAPSCRIPT) and not is_sym(ok) and not ok) else '*')
+        def ref(ctx):
+            if ob['sv'] in (R.BASE, R.WITNESS_V0):
+                if ob['kl'] == 33: okkey = ctx.branch(z3.Or(R.B(pub[0]) == 2, R.B(pub[0]) == 3))
+                elif ob['kl'] == 65: okkey = ctx.branch(z3.Or(R.B(pub[0]) == 4, R.B(pub[0]) == 6, R.B(pub[0]) == 7))
+                else: okkey = False
+                if not okkey or ob['sl'] == 0: return dict(result=0, err='*')
+                htb = sig[-1]
+                dg = ref_legacy(ctx, T, code, nIn, htb) if ob['sv'] == R.BASE else ref_bip143(ctx, T, code, nIn, htb, amount)
+                return dict(result=stubs.b2i(ecdsa_uf(pub, dg, sig[:-1]), 8), err='*')
+            if ob['sl'] not in (64, 65): return dict(result=0, err=R.ERR('SCHNORR_SIG_SIZE'))
+            htb = sig[64] if ob['sl'] == 65 else 0
+            if ob['sl'] == 65 and ctx.branch(R.B(htb) == 0): return dict(result=0, err=R.ERR('SCHNORR_SIG_HASHTYPE'))
+            dg = ref_bip341(ctx, T, spent, nIn, htb, ob['sv'], ob['annex'], ah, leaf, cs)
+            if dg is None: return dict(result=0, err=R.ERR('SCHNORR_SIG_HASHTYPE'))
+            if ctx.branch(SCHNORR_V(stubs.cat([R.B(x) for x in pub], 8), stubs.cat([R.B(x) for x in dg], 8), stubs.cat([R.B(x) for x in sig[:64]], 8))): return dict(result=1, err='*')
+            return dict(result=0, err=R.ERR('SCHNORR_SIG'))
+        return 'w_checker', [('in', r.b), ('out', 16)], io, ref, assume, dict(tx=T['tx'], sig=sig, pub=pub, amount=amount)
     spent = [(bs('sa%d_' % i, 8), bs('sp%d_' % i, 3)) for i in range(ob['nin'])]
     ah = bs('ah', 32); leaf = bs('lf', 32); cs = bs('cs', 4)
     r = Req(); r.bytes(T['tx']).u32(len(spent))
@@ -157,7 +220,7 @@ def validate(E, lib):
     import random, hashlib
     from core import EncoderMismatch
     rnd = random.Random(12); n = 0
-    for ob in obligations('quick')[::5]:
+    for ob in [o for o in obligations('quick') if o['kind'] != 'checker'][::5]:
         class RV(dict):
             def get(s, k, d=0): return rnd.choice([0, 1, 2, 3, 0x81, 0x82, 0x83, 0x41]) if k == 'ht' else (0x51 + rnd.randrange(16) if k == 'c2' else rnd.randrange(256))
         fn, spec, io, ref, assume, inputs = prep(ob, RV())
